@@ -16,12 +16,26 @@ import (
 )
 
 const (
-	RepoDir     = "/repo"
-	ModulePath  = "github.com/zitadel/saml"
-	HarnessPkg  = "github.com/zitadel/saml/pkg/provider"
-	HarnessDir  = "/verif/harness/provider"
-	HarnessDest = "/repo/pkg/provider"
+	ModulePath = "github.com/zitadel/saml"
+	HarnessPkg = "github.com/zitadel/saml/pkg/provider"
 )
+
+// Locations. The registered commands use the defaults; VERIF_DIR / VERIF_REPO
+// exist only for background runs from a snapshot (vp run), which must not
+// write into /verif or depend on edits made to /repo meanwhile.
+var (
+	VerifDir    = envOr("VERIF_DIR", "/verif")
+	RepoDir     = envOr("VERIF_REPO", "/repo")
+	HarnessDir  = filepath.Join(VerifDir, "harness", "provider")
+	HarnessDest = filepath.Join(RepoDir, "pkg", "provider")
+)
+
+func envOr(k, d string) string {
+	if v := os.Getenv(k); v != "" {
+		return v
+	}
+	return d
+}
 
 // LoadEngine loads /repo's current working tree plus the harness overlay.
 func LoadEngine(tier string) (*Engine, error) {
